@@ -194,6 +194,9 @@ package redisemu
 //@ loop 1 invariant ds.data == old(ds.data) && ds.dataObjectNumber == old(ds.dataObjectNumber) && data != nil && data.scratch && !data.keyspace && held
 //@ assertbefore "data.store(pkh.Key, sk)" [C19] record.carried: pkh.Key == fsKeyName && sk.id == fsKeyId && sk.flags == fsFlags && sk.expiresAt == fsKeyExpires && sk.lastAccess == fsKeyAccess
 //@ assertbefore "data.store(pkh.Key, sk)" [C19] record.payload: (flagHasOne(fsFlags, FLAG_KEY_TYPE_STRING) ==> istype(sk.payload, []byte) && unbox(sk.payload, []byte) != nil) && (!flagHasOne(fsFlags, FLAG_KEY_TYPE_STRING) && flagHasOne(fsFlags, FLAG_KEY_TYPE_HASH_TABLE|FLAG_KEY_TYPE_SET) ==> istype(sk.payload, *redisDict) && unbox(sk.payload, *redisDict) != nil) && (!flagHasOne(fsFlags, FLAG_KEY_TYPE_STRING|FLAG_KEY_TYPE_HASH_TABLE|FLAG_KEY_TYPE_SET) ==> istype(sk.payload, *storeList) && unbox(sk.payload, *storeList) != nil)
+//@ loop "for _, element := range rawList" invariant [C19,C03] ends: list != nil && (list.head == nil) == (list.tail == nil)
+// a restored list is doubly linked: every node appended knows its predecessor and the predecessor knows it
+//@ assertafter "list.tail = item" [C19,C03] relinked: item.next == nil && list.tail == item && list.head != nil && (item.prev == nil ==> list.head == item) && (item.prev != nil ==> item.prev.next == item)
 //@ ensures [C19] all.records: err == nil ==> fsHdrs == 1 && fsKeys == fsHdrCount && fsVals == fsHdrCount
 //@ ensures [C19] header.restored: err == nil ==> ds.dataObjectNumber == fsHdrObjNo && ds.data != nil && ds.data.removals == int(fsHdrRemovals) && !ds.data.dirty
 //@ ensures [C19] failed.untouched: err != nil ==> ds.data == old(ds.data)
